@@ -1,46 +1,55 @@
 ---------------------------- MODULE KVSeekImpl ----------------------------
 (* C09 - IMPLEMENTATION-SHAPED model of the sequential read path of pkg/core/storage:
 
-     MemoryStore.seek            memory_store.go:101-137    (filter + sort of one map)
-     seekRangeToPrefixes         store.go:110-124           (range translation for the disk backends)
+     MemoryStore.seek             memory_store.go:101-137    (filter + sort of one map)
+     seekRangeToPrefixes          store.go:110-124           (range translation for the disk backends)
      boltSeek / LevelDBStore.seek boltdb_store.go:153-192, leveldb_store.go:73-120
-     MemCachedStore.Get          memcached_store.go:95-106  (fall through the layers, nil = tombstone)
-     prepareSeekMemSnapshot      memcached_store.go:194-224 (filter of the top map, tombstones kept)
-     performSeek                 memcached_store.go:234-329 (merge of the sorted snapshot with the lower
-                                                             store's ordered stream; SearchDepth; tail loop)
-     persist (private / shared)  memcached_store.go:378-438 (sequential effect: PutChangeSet into the lower store)
+     MemCachedStore.Get           memcached_store.go:95-106  (fall through the layers, nil = tombstone)
+     prepareSeekMemSnapshot       memcached_store.go:194-224 (filter of the top map, tombstones kept)
+     performSeek                  memcached_store.go:234-329 (merge of the sorted snapshot with the lower
+                                                              store's ordered stream; SearchDepth; tail loop)
+     persist (private / shared)   memcached_store.go:378-438 (sequential effect: PutChangeSet into the lower store)
 
    performSeek is a state machine over the lower store's stream: its state is the record
-   [i, kk, have, out] = (index of the current snapshot item kvMem, the key currently held in kvMem - which is
-   the TRIMMED key once the item was emitted with cutPrefix -, haveMem, items passed to `cont` so far); MergeOne
-   is the body of mergeFunc for one lower item, MergeTail the loop after ps.Seek returned.
+   [i, kk, have, out] = (index of the current snapshot item kvMem; the key currently held in kvMem - the TRIMMED
+   key once the item was emitted with cutPrefix -; haveMem; the items passed to `cont` so far).  MergeOne is the
+   body of mergeFunc for one lower item, MergeTail the loop after ps.Seek returned.
 
-   The state of the model is the stack itself: every stack reachable by Put / Delete / NewLayer / Persist
-   within the bounds is visited, and in every state TLC evaluates, for EVERY range of the configured range
-   universe (prefix x start x direction x SearchDepth x trimming), Result = Ref (KVStore!SeekRef), and
-   Get = Ref for every key.
+   The state of the model is the stack itself: every stack reachable by Put / Delete / NewLayer / Persist within
+   the bounds is visited, and in every state TLC evaluates, for EVERY range of the configured universe
+   (prefix x start x direction x SearchDepth x trimming), Result = Ref, and Get = Ref for every key.
+
+   Representation.  Keys are byte strings (constant Keys); to keep TLC fast a key is represented in the state by
+   its index in KeySeq (the universe sorted with KVStore!BLess, so index order = lexicographic order), and every
+   predicate on byte strings that the code evaluates (isKeyOK, the disk range translation, the trimmed-key
+   equality) as well as the ABSTRACT range predicate KVStore!InRange is tabulated once, at constant level, by
+   TLC itself from the byte-string definitions.  Items of results are <<key index, value>>; trimming maps every
+   key of a result through the same injective function on both sides and is therefore not applied to the compared
+   sequences (it matters only through the stale comparison, see CutStale).
 
    Constants describing the code AS IT IS vs named deviations:
      MemBackBound  "Exact"  = in-memory stores keep `suffix <= start` for a backward seek (code as it is);
                    "PrefixInclusive" = they also keep extensions of start, like the disk backends (proposed fix)
-     CutStale      TRUE  = kvMem.Key is overwritten by the trimmed key and later compared with a full lower
-                           key (code as it is);  FALSE = the comparison uses the untrimmed key (proposed fix)
-     BugTail       TRUE  = tail loop starts at iMem instead of iMem-1 (a made-up deviation: non-vacuity)
+     CutStale      TRUE  = kvMem.Key is overwritten by the trimmed key and later compared with a full lower key
+                           (code as it is);  FALSE = the comparison uses the untrimmed key (proposed fix)
+     BugTail       TRUE  = tail loop starts at iMem instead of iMem-1 (a made-up deviation: non-vacuity self-test)
      Judge         "all" = every range is judged;  "outside" = ranges of the two known defect classes
-                           (see ClassA / ClassB) are left out                                              *)
+                           (ClassA / ClassB) are left out                                                    *)
 EXTENDS KVStore
 
 CONSTANTS Keys, PrefixSet, StartSet, DepthSet, CutSet, Backends, MaxLayers, MaxEntries,
           MemBackBound, CutStale, BugTail, Judge
 
 VARIABLES backend,      \* "mem" | "bolt" | "leveldb"
-          disk,         \* the backend's map (a MemoryStore backend keeps nil entries: TOMB)
-          stack         \* sequence of cache layers, bottom first: key -> value | TOMB
+          disk,         \* the backend's map: key index -> value (a MemoryStore backend keeps nil entries: TOMB)
+          stack         \* sequence of cache layers, bottom first: key index -> value | TOMB
 vars == <<backend, disk, stack>>
 
 Top == Len(stack)
 
 -----------------------------------------------------------------------------
+(* byte-string level definitions of what the code computes *)
+
 (* util.BytesPrefix(p).Limit : increment the last byte that is not 0xff and cut there; none if all 0xff *)
 NextPrefix(p) ==
     LET nz == {i \in 1..Len(p) : p[i] < 255}
@@ -56,62 +65,91 @@ MemKeyOK(k, r) ==
           \/ ~r.back /\ ~BLess(s, r.start)
           \/ r.back /\ (~BLess(r.start, s) \/ (MemBackBound = "PrefixInclusive" /\ BHasPrefix(s, r.start)))
 
-(* sorted stream <<key, value>> of a backend *)
-BackendSeek(r) ==
-    IF backend = "mem"
-    THEN LET ks == SortedKeys({k \in DOMAIN disk : disk[k] # TOMB /\ MemKeyOK(k, r)}, r.back)
-         IN  [i \in 1..Len(ks) |-> <<ks[i], disk[ks[i]]>>]
-    ELSE LET ps == r.prefix \o r.start
-             lo == IF r.back THEN r.prefix ELSE ps
-             hi == IF r.back THEN NextPrefix(ps) ELSE NextPrefix(r.prefix)
-             ok(k) == /\ ~BLess(k, lo)
-                      /\ IF backend = "leveldb" THEN hi = <<>> \/ BLess(k, hi)
-                         ELSE /\ BHasPrefix(k, r.prefix)                       \* boltSeek loop condition
-                              /\ hi = <<>> \/ (IF r.back THEN BLess(k, hi) ELSE BLeq(k, hi))
-             ks == SortedKeys({k \in DOMAIN disk : disk[k] # TOMB /\ ok(k)}, r.back)
-         IN  [i \in 1..Len(ks) |-> <<ks[i], disk[ks[i]]>>]
+(* seekRangeToPrefixes + the iteration bounds of LevelDB (half-open iterator range) and of boltSeek (cursor
+   positioned at Start resp. just below Limit, loop while HasPrefix and k <= Limit) *)
+DiskKeyOK(b, k, r) ==
+    LET ps == r.prefix \o r.start
+        lo == IF r.back THEN r.prefix ELSE ps
+        hi == IF r.back THEN NextPrefix(ps) ELSE NextPrefix(r.prefix)
+    IN  /\ ~BLess(k, lo)
+        /\ IF b = "leveldb" THEN hi = <<>> \/ BLess(k, hi)
+           ELSE /\ BHasPrefix(k, r.prefix)
+                /\ hi = <<>> \/ (IF r.back THEN BLess(k, hi) ELSE BLeq(k, hi))
 
 -----------------------------------------------------------------------------
-(* performSeek *)
-CmpLess(a, b, back) == IF back THEN BLess(b, a) ELSE BLess(a, b)
-CutKey(k, r, cut) == IF cut THEN BDrop(k, Len(r.prefix)) ELSE k
+(* tabulation *)
+KeySeq == SortedKeys(Keys, FALSE)
+NK     == Len(KeySeq)
+Ids    == 1..NK
+IdSeq  == [i \in 1..NK |-> i]
+IdOf(t) == IF t \in Keys THEN CHOOSE j \in Ids : KeySeq[j] = t ELSE 0
+ASSUME \A i \in 1..(NK - 1) : BLess(KeySeq[i], KeySeq[i + 1])
 
-MemSnapshot(layer, r) ==        \* prepareSeekMemSnapshot + the sort at the top of performSeek
-    LET ks == SortedKeys({k \in DOMAIN layer : MemKeyOK(k, r)}, r.back)
+RangeSeq == SetToSeq([prefix : PrefixSet, start : StartSet, back : BOOLEAN])
+NR       == Len(RangeSeq)
+RIds     == 1..NR
+RefIn  == [rid \in RIds |-> {i \in Ids : InRange(KeySeq[i], RangeSeq[rid])}]             \* the ABSTRACT predicate
+MemIn  == [rid \in RIds |-> {i \in Ids : MemKeyOK(KeySeq[i], RangeSeq[rid])}]
+DiskIn == [b \in {"bolt", "leveldb"} |-> [rid \in RIds |-> {i \in Ids : DiskKeyOK(b, KeySeq[i], RangeSeq[rid])}]]
+TrimId == [rid \in RIds |-> [i \in Ids |->
+              IF BHasPrefix(KeySeq[i], RangeSeq[rid].prefix) THEN IdOf(BDrop(KeySeq[i], Len(RangeSeq[rid].prefix))) ELSE 0]]
+ExtIn  == [rid \in RIds |-> LET ps == RangeSeq[rid].prefix \o RangeSeq[rid].start
+                            IN  {i \in Ids : BHasPrefix(KeySeq[i], ps) /\ KeySeq[i] # ps}]
+Back(rid)     == RangeSeq[rid].back
+HasStart(rid) == RangeSeq[rid].start # <<>>
+
+Ordered(S, back) == LET a == SelectSeq(IdSeq, LAMBDA i : i \in S) IN IF back THEN Reverse(a) ELSE a
+
+-----------------------------------------------------------------------------
+(* sorted stream <<key, value>> of the backend *)
+BackendSeek(rid) ==
+    LET ok == IF backend = "mem" THEN MemIn[rid] ELSE DiskIn[backend][rid]
+        ks == Ordered({k \in DOMAIN disk : disk[k] # TOMB} \cap ok, Back(rid))
+    IN  [i \in 1..Len(ks) |-> <<ks[i], disk[ks[i]]>>]
+
+(* performSeek *)
+CmpLess(a, b, back) == IF back THEN b < a ELSE a < b
+
+MemSnapshot(layer, rid) ==      \* prepareSeekMemSnapshot + the sort at the top of performSeek
+    LET ks == Ordered(DOMAIN layer \cap MemIn[rid], Back(rid))
     IN  [i \in 1..Len(ks) |-> [k |-> ks[i], v |-> layer[ks[i]], ex |-> layer[ks[i]] # TOMB]]
 
-MergeInit(memRes) == IF memRes = <<>> THEN [i |-> 0, kk |-> <<>>, have |-> FALSE, out |-> <<>>]
-                     ELSE [i |-> 1, kk |-> memRes[1].k, have |-> TRUE, out |-> <<>>]
+(* kk = <<"full", id>> : kvMem.Key is the untrimmed key id;  <<"cut", id>> : it is the trimmed key, equal to the
+   universe key id (0 = equal to no key of the universe);  <<"nil">> : zero value *)
+MergeInit(memRes) == IF memRes = <<>> THEN [i |-> 0, kk |-> <<"nil", 0>>, have |-> FALSE, out |-> <<>>]
+                     ELSE [i |-> 1, kk |-> <<"full", memRes[1].k>>, have |-> TRUE, out |-> <<>>]
+
+KeyEq(kk, p, rid) == kk[2] = p /\ kk[1] # "nil"     \* bytes.Equal(kvMem.Key, kvPs.Key)
 
 RECURSIVE MergeOne(_, _, _, _, _)
-MergeOne(memRes, st, p, r, cut) ==          \* mergeFunc(k, v) for the lower item p = <<k, v>>
-    IF st.have /\ CmpLess(st.kk, p[1], r.back)
+MergeOne(memRes, st, p, rid, cut) ==        \* mergeFunc(k, v) for the lower item p = <<k, v>>
+    IF st.have /\ CmpLess(st.kk[2], p[1], Back(rid))
     THEN LET it   == memRes[st.i]
-             out2 == IF it.ex THEN Append(st.out, <<CutKey(it.k, r, cut), it.v>>) ELSE st.out
-             kk2  == IF it.ex /\ cut /\ CutStale THEN CutKey(it.k, r, cut) ELSE it.k
+             out2 == IF it.ex THEN Append(st.out, <<it.k, it.v>>) ELSE st.out
+             kk2  == IF it.ex /\ cut /\ CutStale THEN <<"cut", TrimId[rid][it.k]>> ELSE <<"full", it.k>>
          IN  IF st.i < Len(memRes)
-             THEN MergeOne(memRes, [i |-> st.i + 1, kk |-> memRes[st.i + 1].k, have |-> TRUE, out |-> out2], p, r, cut)
-             ELSE MergeOne(memRes, [i |-> st.i, kk |-> kk2, have |-> FALSE, out |-> out2], p, r, cut)
-    ELSE [st EXCEPT !.out = IF st.kk # p[1] THEN Append(@, <<CutKey(p[1], r, cut), p[2]>>) ELSE @]
+             THEN MergeOne(memRes, [i |-> st.i + 1, kk |-> <<"full", memRes[st.i + 1].k>>, have |-> TRUE, out |-> out2], p, rid, cut)
+             ELSE MergeOne(memRes, [i |-> st.i, kk |-> kk2, have |-> FALSE, out |-> out2], p, rid, cut)
+    ELSE [st EXCEPT !.out = IF ~KeyEq(st.kk, p[1], rid) THEN Append(@, p) ELSE @]
 
 RECURSIVE MergeStream(_, _, _, _, _, _)
-MergeStream(memRes, st, lower, j, r, cut) ==
-    IF j > Len(lower) THEN st ELSE MergeStream(memRes, MergeOne(memRes, st, lower[j], r, cut), lower, j + 1, r, cut)
+MergeStream(memRes, st, lower, j, rid, cut) ==
+    IF j > Len(lower) THEN st ELSE MergeStream(memRes, MergeOne(memRes, st, lower[j], rid, cut), lower, j + 1, rid, cut)
 
-MergeTail(memRes, st, r, cut) ==
+MergeTail(memRes, st) ==
     IF ~st.have THEN st.out
     ELSE LET from == IF BugTail THEN st.i + 1 ELSE st.i
              idx  == SelectSeq([j \in 1..Len(memRes) |-> j], LAMBDA j : j >= from /\ memRes[j].ex)
-         IN  st.out \o [n \in 1..Len(idx) |-> <<CutKey(memRes[idx[n]].k, r, cut), memRes[idx[n]].v>>]
+         IN  st.out \o [n \in 1..Len(idx) |-> <<memRes[idx[n]].k, memRes[idx[n]].v>>]
 
-RECURSIVE ImplSeekAt(_, _, _)
-ImplSeekAt(j, r, cut) ==        \* Seek / SeekAsync on layer j of the stack (0 = the backend)
-    IF j = 0 THEN BackendSeek(r)
-    ELSE LET memRes == MemSnapshot(stack[j], r)
-             lower  == IF r.depth = 0 \/ r.depth > 1
-                       THEN ImplSeekAt(j - 1, [r EXCEPT !.depth = IF @ > 1 THEN @ - 1 ELSE 0], FALSE)
+RECURSIVE ImplSeekAt(_, _, _, _)
+ImplSeekAt(j, rid, depth, cut) ==       \* Seek / SeekAsync on layer j of the stack (0 = the backend)
+    IF j = 0 THEN BackendSeek(rid)
+    ELSE LET memRes == MemSnapshot(stack[j], rid)
+             lower  == IF depth = 0 \/ depth > 1
+                       THEN ImplSeekAt(j - 1, rid, IF depth > 1 THEN depth - 1 ELSE 0, FALSE)
                        ELSE <<>>
-         IN  MergeTail(memRes, MergeStream(memRes, MergeInit(memRes), lower, 1, r, cut), r, cut)
+         IN  MergeTail(memRes, MergeStream(memRes, MergeInit(memRes), lower, 1, rid, cut))
 
 RECURSIVE ImplGetAt(_, _)
 ImplGetAt(j, k) ==
@@ -121,8 +159,7 @@ ImplGetAt(j, k) ==
 
 -----------------------------------------------------------------------------
 (* the stack as a state machine *)
-Entries == Cardinality(DOMAIN disk) + (IF stack = <<>> THEN 0 ELSE
-              FoldLeft(LAMBDA a, l : a + Cardinality(DOMAIN l), 0, stack))
+Entries == Cardinality(DOMAIN disk) + FoldLeft(LAMBDA a, l : a + Cardinality(DOMAIN l), 0, stack)
 
 Init == backend \in Backends /\ disk = EmptyMap /\ stack = <<EmptyMap>>
 
@@ -141,7 +178,7 @@ Pop ==          \* Persist of a private top layer: it is closed afterwards
     /\ UNCHANGED <<backend, disk>>
 
 IsFlush == (\E i \in 1..Top : Flush(i)) \/ Pop
-Next == \/ \E k \in Keys : Put(k) \/ Del(k)
+Next == \/ \E k \in Ids : Put(k) \/ Del(k)
         \/ Push
         \/ IsFlush
 Spec == Init /\ [][Next]_vars
@@ -150,26 +187,24 @@ Bound == Entries <= MaxEntries
 
 -----------------------------------------------------------------------------
 (* the judge *)
-AbsDisk == Live(disk)
-View(d) == ViewAt(AbsDisk, stack, Top, d)
+View(d) == ViewAt(Live(disk), stack, Top, d)
 
-RangeSet == [prefix : PrefixSet, start : StartSet, back : BOOLEAN, depth : DepthSet]
+(* KVStore!SeekRef over the tabulated abstract range predicate *)
+RefSeek(view, rid) == LET ks == Ordered(DOMAIN view \cap RefIn[rid], Back(rid))
+                      IN  [i \in 1..Len(ks) |-> <<ks[i], view[ks[i]]>>]
 
 KeysAnywhere == DOMAIN disk \cup UNION {DOMAIN stack[i] : i \in 1..Top}
 (* known class A: a backward seek from a start point while some stored key properly extends prefix ++ start *)
-ClassA(r) == /\ r.back /\ r.start # <<>>
-             /\ \E k \in KeysAnywhere : BHasPrefix(k, r.prefix \o r.start) /\ k # r.prefix \o r.start
-(* known class B: trimming, and a cached key whose trimmed form is itself a key of the range *)
-ClassB(r, cut) == /\ cut
-                  /\ \E km \in DOMAIN stack[Top], kp \in KeysAnywhere :
-                        BHasPrefix(km, r.prefix) /\ BDrop(km, Len(r.prefix)) = kp
+ClassA(rid) == Back(rid) /\ HasStart(rid) /\ ExtIn[rid] \cap KeysAnywhere # {}
+(* known class B: trimming, and a cached key whose trimmed form is itself a stored key *)
+ClassB(rid, cut) == cut /\ \E km \in DOMAIN stack[Top] : TrimId[rid][km] \in KeysAnywhere
 
-Judged(r, cut) == Judge = "all" \/ ~(ClassA(r) \/ ClassB(r, cut))
+Judged(rid, cut) == Judge = "all" \/ ~(ClassA(rid) \/ ClassB(rid, cut))
 
-SeekOK(r, cut) == ImplSeekAt(Top, r, cut) = SeekRef(View(r.depth), r, IF cut THEN Len(r.prefix) ELSE 0)
-
-SeekExact == \A r \in RangeSet, cut \in CutSet : Judged(r, cut) => SeekOK(r, cut)
-GetExact  == \A k \in Keys : ImplGetAt(Top, k) = GetRef(View(0), k)
+SeekExact == LET views == [d \in DepthSet |-> View(d)]
+             IN  \A rid \in RIds, d \in DepthSet, cut \in CutSet :
+                    Judged(rid, cut) => ImplSeekAt(Top, rid, d, cut) = RefSeek(views[d], rid)
+GetExact  == LET v == View(0) IN \A k \in Ids : ImplGetAt(Top, k) = GetRef(v, k)
 (* "flushing a layer at any moment changes no answer": the one map is unchanged by every flush step *)
 FlushKeepsView == [][IsFlush => ViewAt(Live(disk'), stack', Len(stack'), 0) = View(0)]_vars
 =============================================================================
